@@ -116,6 +116,13 @@ def run_session(prop, run_seed, profile, monitors, ops=None, known=None, own_tre
                 continue
             U.rediscover()
             guard = tree_structure(U)
+            if guard is not None and not own_tree and guard[0] != "tree.acyclic":
+                # Broken membership / back pointers (C03's to report) cannot make the library or
+                # the harness loop: the run goes on and this property's own monitors keep judging,
+                # e.g. a refused remove that forgets the parent lets a later rename create a name
+                # clash (C04).  Only a cyclic parent chain ends the run (it can hang traversals).
+                res.stats["corrupt_universe_continued"] = res.stats.get("corrupt_universe_continued", 0) + 1
+                guard = None
             post = U.snapshot() if guard is None or own_tree else None
             res.stats["steps"] += 1
             res.count("ops", op["op"])
